@@ -20,3 +20,17 @@ pub fn reaction_key(message: &str) -> String {
     };
     reason.chars().filter(|c| !c.is_ascii_digit()).collect()
 }
+
+/// Violation signature: stable, built from the kind of failing case only.
+/// Classes with one root cause independent of where they are seen get one
+/// signature for the whole property.
+pub fn c15_signature(part: &str, class: &str, shape: &str) -> String {
+    if class == "json-decode-fails:recursion-limit" {
+        return "C15:accepted-tree-exceeds-json-decode-recursion-limit".to_string();
+    }
+    if shape.is_empty() {
+        format!("C15:{part}:{class}")
+    } else {
+        format!("C15:{part}:{class}:{shape}")
+    }
+}
